@@ -132,6 +132,9 @@ func c08prop(ev *evid.Rec) func(rt *rapid.T) {
 			}
 			dir := base
 			var path []byte
+			if name == "d" {
+				deep = 0 // (the deep folders are all called "d")
+			}
 			if deep > 0 {
 				items := make([]string, deep)
 				for i := range items {
